@@ -1197,6 +1197,18 @@ class Interp:
     def e_ListComp(self, e):
         return self._comp(e, lambda: self.eval(e.elt))
 
+    def _concrete_set(self, items, node):
+        for x in items:
+            if is_sym(x) or isinstance(x, (SRec, GDict, GObj, GStr, list, dict, set)):
+                raise Unsupported("set display / comprehension with a symbolic or unhashable element at line %d" % node.lineno)
+        return set(items)
+
+    def e_Set(self, e):
+        return self._concrete_set(self.eval_elts(e.elts), e)
+
+    def e_SetComp(self, e):
+        return self._concrete_set(self._comp(e, lambda: self.eval(e.elt)), e)
+
     def e_GeneratorExp(self, e):
         return self._comp(e, lambda: self.eval(e.elt))
 
@@ -1433,6 +1445,11 @@ class _BoundNative:
             if is_sym(k):
                 raise Unsupported("symbolic dict.get key")
             return o.get(k, args[1] if len(args) > 1 else None)
+        if isinstance(o, dict) and not isinstance(o, GDict) and n == "setdefault":
+            k = args[0]
+            if is_sym(k):
+                raise Unsupported("symbolic dict.setdefault key")
+            return o.setdefault(k, args[1] if len(args) > 1 else None)
         if isinstance(o, dict) and n in ("items", "keys", "values"):
             return list(getattr(o, n)())
         if isinstance(o, dict) and n == "copy":
@@ -1633,9 +1650,13 @@ def _b_bool(interp, node, v=False):
 
 def _b_sorted(interp, node, v, **kw):
     seq = interp.as_sequence(v, node)
-    if any(is_sym(x) for x in seq) or kw:
+    if any(is_sym(x) for x in seq):
         raise Unsupported("sorted of symbolic values")
-    return sorted(seq)
+    key = kw.pop("key", None)
+    reverse = kw.pop("reverse", False)
+    if kw or is_sym(reverse) or (key is not None and key not in (sorted, len, str, tuple, list)):
+        raise Unsupported("sorted with a key that is not one of the builtins sorted/len/str/tuple/list")
+    return sorted(seq, key=key, reverse=bool(reverse))
 
 
 def _cmp_op(astop):
